@@ -89,8 +89,10 @@ func (m *sketchModel) compare(s *ristretto.VerifSketch) string {
 func runC18(c *Ctx) {
 	r := c.R
 	r.Rule = "(a) exhaustive: all 256 byte values x both nibbles for increment, all 256 for reset, on the real rows; (b) sequences of Increment/Estimate/Reset/Clear over table sizes NumCounters>=2 compared counter-by-counter with an exact model, reset forced at every position class; (c) tinyLFU sequences with natural resets (bounds min(n,15)<=estimate<=16, monotonicity, halving, door cleared); (d) next2Power. distinct by (table size, op kind, counter value before the op, position class); non-trivial when some counter is non-zero"
-	c18Bytes(c)
-	c18Next2(c)
+	if c.Part == 0 {
+		c18Bytes(c)
+		c18Next2(c)
+	}
 	sizes := []int64{2, 3, 4, 5, 7, 8, 9, 15, 16, 17, 31, 32, 33, 63, 64, 65, 100, 1000, 1024, 4097}
 	if c.Thorough() {
 		sizes = append(sizes, 6, 10, 12, 127, 128, 129, 255, 256, 257, 5000, 65536, 100000)
@@ -99,10 +101,12 @@ func runC18(c *Ctx) {
 	stream := uint64(0)
 	for rep := 0; rep < reps; rep++ {
 		for _, nc := range sizes {
-			stream++
-			c18SketchSeq(c, c.rng(1800+stream), nc, stream)
-			stream++
-			c18Tiny(c, c.rng(1800+stream), nc, stream)
+			stream += 2
+			if int(stream/2)%c.NParts != c.Part {
+				continue
+			}
+			c18SketchSeq(c, lab.NewRNG(c.Seed, 1800000+stream), nc, stream)
+			c18Tiny(c, lab.NewRNG(c.Seed, 1800001+stream), nc, stream+1)
 		}
 	}
 }
